@@ -865,6 +865,11 @@ def malformed_atoms():
             ("general-shape", _gen_u(I2, 0)), ("general-shape", _gen_u(I2, 2)), ("general-shape", _gen_u(np.identity(4), 1)), ("general-shape", _gen_u(np.identity(1), 0)),
             ("general-shape", _gen_u(np.identity(1), -1)), ("general-shape", _gen_u(np.identity(4), 2)), ("general-shape", _gen_u(np.array(1.0), 0)),
             ("general-shape", _gen_u(np.identity(2, dtype=np.int64), 1, "list")), ("general-shape", _gen_u(np.ones((1, 4)), 2)), ("general-shape", _gen_u(np.ones((4, 1)), 2))]
+    # non-square matrices with ORTHONORMAL rows (U U^H = 1 holds) or columns: only the shape test can refuse them
+    out += [("general-shape", _gen_u(np.eye(2, 4), 1)), ("general-shape", _gen_u(np.eye(2, 3), 1)), ("general-shape", _gen_u(np.eye(1, 2), 0)),
+            ("general-shape", _gen_u(np.eye(4, 8), 2)), ("general-shape", _gen_u(np.eye(4, 2), 1)), ("general-shape", _gen_u(np.eye(4, 2), 2)),
+            ("general-shape", _gen_u(np.array([[1, 1j, 0, 0], [0, 0, 1, -1j]]) / math.sqrt(2), 1)),
+            ("general-shape", _gen_u(np.kron(np.array([[1, 1], [1, -1]]) / math.sqrt(2), np.eye(1, 2)), 1))]
     out += [("general-unitary", _gen_u(1.001 * I2, 1)), ("general-unitary", _gen_u(np.array([[1, 1], [0, 1.0]]), 1)), ("general-unitary", _gen_u(np.zeros((2, 2)), 1)),
             ("general-unitary", _gen_u(np.array([[0, 2], [0.5, 0]]), 1)), ("general-unitary", _gen_u(np.array([[1, 1], [1, -1]]), 1)),
             ("general-unitary", _gen_u(np.array([[1, 1], [1, -1]]) / math.sqrt(2), 1)), ("general-unitary", _gen_u(np.array([[0, 1j], [1j, 0]]), 1)),
